@@ -447,8 +447,121 @@ fn cancel_mid_publish(r: &mut Rng, res: &mut CaseResult) {
     res.sample = Some(json!({"scenario": "server cancels consumers of the publishing channel while a publish is in flight", "body_frames": total_frames, "cancel_after_body_frames": points, "nowait": nowaits}));
 }
 
+/// The server cancels (unknown tags, asking for CancelOk) at a high rate while the client
+/// publishes many small messages through a one-slot in-memory channel: the window between a
+/// publish method and its content header, which `cancel_mid_publish` (cancels only once body
+/// frames are out) never reaches. Statistical: the observation counter says how many CancelOk
+/// landed between two publishes, i.e. how close the storm came to the window.
+fn cancel_storm(r: &mut Rng, res: &mut CaseResult) {
+    let fm = 4096u32;
+    let mut reflex = Reflex::default();
+    reflex.tune = (2047, fm, 0);
+    let tuning = ConnectionTuning::default().mem_channel_bound(*r.pick(&[1usize, 1, 2]));
+    let (conn, h) = session::open_with(reflex, session::default_opts(), tuning, |_| {});
+    let mut conn = match conn {
+        Ok(c) => c,
+        Err(e) => {
+            res.inconclusive(format!("handshake failed: {}", ek(&e)));
+            return;
+        }
+    };
+    let ch = match conn.open_channel(None) {
+        Ok(c) => c,
+        Err(e) => {
+            res.inconclusive(format!("open_channel failed: {}", ek(&e)));
+            return;
+        }
+    };
+    let chid = ch.channel_id();
+    let npubs = r.usize(300, 600);
+    let pubs: Vec<Pub> = (0..npubs)
+        .map(|i| {
+            let mut p = gen_pubs(r, &format!("s{}", i), 1, fm, false).remove(0);
+            p.via = 0;
+            let len = if r.chance(1, 4) { 0 } else { r.usize(1, 64) };
+            p.body = r.bytes(len);
+            p
+        })
+        .collect();
+    let pubs2 = pubs.clone();
+    let stop = std::sync::Arc::new(std::sync::atomic::AtomicBool::new(false));
+    let stop2 = stop.clone();
+    let t = run::spawn("publisher", move || {
+        let mut errs = Vec::new();
+        for p in &pubs2 {
+            if let Err(e) = do_publish(&ch, p) {
+                errs.push(format!("publish {}: {}", p.routing_key, ek(&e)));
+                break;
+            }
+        }
+        stop2.store(true, std::sync::atomic::Ordering::SeqCst);
+        if let Err(e) = ch.qos(0, 0, false) {
+            errs.push(format!("barrier: {}", ek(&e)));
+        }
+        let _ = ch.close();
+        errs
+    });
+    let mut injected = 0u64;
+    let gap = *r.pick(&[0u64, 5, 20, 60]);
+    let t0 = std::time::Instant::now();
+    while !stop.load(std::sync::atomic::Ordering::SeqCst) && t0.elapsed() < W {
+        h.inject(wire::enc_method(chid, AMQPClass::Basic(B::Cancel(amq_protocol::protocol::basic::Cancel { consumer_tag: format!("nobody-{}", injected), nowait: false }))));
+        injected += 1;
+        if gap > 0 {
+            std::thread::sleep(std::time::Duration::from_micros(gap));
+        } else {
+            std::thread::yield_now();
+        }
+    }
+    res.obs("server_cancels_in_a_storm", injected);
+    match t.join(W * 3) {
+        J::Done(errs) => {
+            for e in errs {
+                res.violate("publish_failed", e);
+            }
+        }
+        _ => {
+            res.inconclusive("publisher did not finish");
+            std::mem::forget(conn);
+            return;
+        }
+    }
+    let frames = h.frames();
+    if let Some(e) = h.peek(|st| st.parse_error.clone()) {
+        res.violate("malformed_outbound_frame", e);
+    }
+    // how many CancelOk went out while the publisher was at work (between two publishes)
+    let first_pub = frames.iter().position(|f| f.ch == chid && matches!(f.method(), Some(AMQPClass::Basic(B::Publish(_)))));
+    let last_pub = frames.iter().rposition(|f| f.ch == chid && matches!(f.method(), Some(AMQPClass::Basic(B::Publish(_)))));
+    if let (Some(a), Some(b)) = (first_pub, last_pub) {
+        let among = frames[a..=b].iter().filter(|f| f.ch == chid && matches!(f.method(), Some(AMQPClass::Basic(B::CancelOk(_))))).count() as u64;
+        res.obs("cancel_oks_among_the_publishes", among);
+    }
+    if let Some(clean) = strip_cancel_oks(&frames, chid, res) {
+        check_channel(&clean, chid, &pubs, fm, res);
+    }
+    let tc = run::spawn("close", move || conn.close());
+    let _ = tc.join(W);
+    for p in run::io_panics(&run::take_panics()) {
+        res.violate("panic", format!("I/O thread: {} at {}", p.msg, p.loc));
+    }
+    res.sig = crate::rng::fnv_str(&format!("storm{}:{}", npubs, gap));
+    res.sample = Some(json!({"scenario": "server cancel storm against small publishes", "publishes": npubs, "cancels_injected": injected, "gap_us": gap}));
+}
+
 pub fn run(rc: &mut RunCtx) {
     let seed = rc.seed;
+    for i in 0..rc.n(6, 60) {
+        let id = format!("cancel-storm:{}", i);
+        if !rc.mine(&id) {
+            continue;
+        }
+        rc.begin(&id);
+        let mut res = CaseResult::new(id);
+        let mut r = Rng::for_case(seed, 2, 4_000_000 + i);
+        cancel_storm(&mut r, &mut res);
+        rc.end(res);
+    }
     for i in 0..rc.n(16, 200) {
         let id = format!("cancel-mid-publish:{}", i);
         if !rc.mine(&id) {
